@@ -422,6 +422,26 @@ impl std::hash::BuildHasher for Bd {
     }
 }
 
+/// A key whose `Hash` can be made to panic by the fuse (the plain u64 keys cannot).
+#[derive(Clone, Copy, PartialEq, Eq, Debug)]
+struct Pk(u64);
+impl std::hash::Hash for Pk {
+    fn hash<H: std::hash::Hasher>(&self, state: &mut H) {
+        tick(Cb::Hash);
+        state.write_u64(self.0);
+    }
+}
+impl serde::Serialize for Pk {
+    fn serialize<S: serde::Serializer>(&self, s: S) -> Result<S::Ok, S::Error> {
+        s.serialize_u64(self.0)
+    }
+}
+impl<'de> Deserialize<'de> for Pk {
+    fn deserialize<D: serde::Deserializer<'de>>(d: D) -> Result<Self, D::Error> {
+        u64::deserialize(d).map(Pk)
+    }
+}
+
 pub fn serde(a: &Args, rep: &mut Report) {
     let sh = Shard::from_args(a);
     let mut rng = sh.rng(0x5e7de);
@@ -439,6 +459,7 @@ pub fn serde(a: &Args, rep: &mut Report) {
         let tag = format!("serde-{}-s{}-i{}-h{}", flavour(), sh.seed, sh.index, h);
         let body = vec![("kind", "serde".to_string()), ("contents", format!("{contents:?}")), ("phase", phase.to_string())];
         rep.evaluations += 1;
+        let post_panic = std::cell::Cell::new(false);
         let r = catch(|| -> Result<bool, String> {
             // exact length, each element once, in iteration order
             let mut tokens: Vec<Token> = vec![Token::Map { len: Some(m.len()) }];
@@ -603,6 +624,46 @@ pub fn serde(a: &Args, rep: &mut Report) {
                     return Err("deserialize_in_place of a zero-sized-element set went wrong".into());
                 }
             }
+            // a set that lived through a caught panic of the user's Hash (in the all-at-once carry
+            // of reserve, mid-resize) is still a set: exact length, every element once, round trip
+            if n >= 15 && hr.chance(1, 2) {
+                let mut ps: HashSet<Pk, Bh> = HashSet::with_hasher(Bh::default());
+                for k in contents.keys() {
+                    ps.insert(Pk(*k));
+                }
+                let mut e = 0u64;
+                let mut noise = Vec::new();
+                while ps.verif_state().old.is_none() && e < 5000 {
+                    e += 1;
+                    ps.insert(Pk((1 << 43) + e));
+                    noise.push((1u64 << 43) + e);
+                }
+                for x in noise {
+                    ps.remove(&Pk(x));
+                }
+                let left = ps.verif_state().old.map_or(0, |o| o.table.len);
+                if left > 0 {
+                    let j = 1 + hr.below(left as u64);
+                    fuse_begin(Some((Cb::Hash, j)));
+                    let r = catch(|| ps.reserve(10_000));
+                    let (_, fired) = fuse_end();
+                    if let Err(p) = &r {
+                        if !p.contains(FUSE_MSG) {
+                            return Err(format!("harness: reserve panicked on its own: {p}"));
+                        }
+                    }
+                    if fired {
+                        let mut pt: Vec<Token> = vec![Token::Seq { len: Some(ps.len()) }];
+                        for k in ps.iter() {
+                            pt.push(Token::U64(k.0));
+                        }
+                        pt.push(Token::SeqEnd);
+                        assert_ser_tokens(&ps, &pt);
+                        assert_de_tokens(&ps, &pt);
+                        post_panic.set(true);
+                    }
+                }
+            }
             // wrong input shapes are rejected with the collection's own expectation text
             serde_test::assert_de_tokens_error::<HashMap<u64, u64, Bh>>(&[Token::U64(1)], "invalid type: integer `1`, expected a map");
             serde_test::assert_de_tokens_error::<HashSet<u64, Bh>>(&[Token::U64(1)], "invalid type: integer `1`, expected a sequence");
@@ -615,6 +676,9 @@ pub fn serde(a: &Args, rep: &mut Report) {
         match r {
             Ok(Ok(extra_split)) => {
                 rep.bump("serde_cases", 1);
+                if post_panic.get() {
+                    rep.bump("serde_after_caught_hash_panic", 1);
+                }
                 if split || extra_split {
                     rep.bump("serde_split", 1);
                     rep.nontrivial.insert(digest(contents.iter().flat_map(|(a, b)| [*a, *b]).chain([phase])));
